@@ -34,4 +34,32 @@ pub fn run(args: &[String]) {
     for n in crate::k1::structured(seed_from_env() ^ 0x22, nstruct, 22) {
         writeln!(out, "recipe {} {}\t{}", kind, n, recipe_line(kind, n)).unwrap();
     }
+    // the heuristic tables of the planners branch on the exponents of 2 and 3 (and on the presence of 5, 7, 11): every
+    // 2^a * 3^b below 2^31 beyond the swept range, and those times 5 / 7 / 11 / 35 — planning only, nothing is built.
+    // (AVX plans of lengths needing a Bluestein step would construct nothing either: verif_plan only plans.)
+    if nstruct > 0 {
+        let mut grid: Vec<usize> = vec![];
+        let mut p2 = 1usize;
+        for _a in 0..31 {
+            let mut v = p2;
+            for _b in 0..20 {
+                if v >= (1usize << 31) {
+                    break;
+                }
+                for m in [1usize, 5, 7, 11, 35] {
+                    let n = v.saturating_mul(m);
+                    if n >= hi && n < (1usize << 31) {
+                        grid.push(n);
+                    }
+                }
+                v = v.saturating_mul(3);
+            }
+            p2 *= 2;
+        }
+        grid.sort();
+        grid.dedup();
+        for n in grid {
+            writeln!(out, "recipe {} {}\t{}", kind, n, recipe_line(kind, n)).unwrap();
+        }
+    }
 }
